@@ -243,5 +243,5 @@ def check(ctx):
     share(ctx, 'C09', 'R3/C09.', ['R1.', 'R2.', 'R4.'])
     # the numbers handed to the integrand / the map are generate_canonical<T, digits of T, Engine>
     # itself: drawn in a wider type and narrowed they can round to exactly 1 (shared with C10)
-    share(ctx, 'C10', 'R6/C10.', ['R1.template_args'])
+    share(ctx, 'C10', 'R6/C10.', ['R1.template_args', 'R5.factory_dimensions', 'R5.getters'])
 
